@@ -24,7 +24,7 @@ ASSUMPTIONS = ["reference model: a Python dict from int to value",
                "a single absent key may be refused or answered with an empty result (the statement only demands refusal for vector lookups), never with a value",
                "per-key vector assignment is only issued with distinct keys (numpy leaves the winner of duplicate fancy-index writes unspecified)"]
 REQUIRED_FEATURES = ["all_keys_collide", "negative_key", "large_key", "unsigned_keys", "scalar_valued", "absent_key_colliding",
-                     "absent_key_empty_bucket", "vector_with_absent", "lazy_form_materialised", "bfs_depth2", "empty_query", "one_element_vector"]
+                     "absent_key_empty_bucket", "vector_with_absent", "lazy_form_materialised", "bfs_depth2", "empty_query", "one_element_vector", "equality_across_representations", "addition_other_key_order"]
 BOUNDS = {"quick": "grid: every non-empty key subset of size <= 3 of {0,1,2,3,7,-1,-3,2**62} (int64), moduli {default,1,2,3,5,64}, 4 value forms; "
                    "the dtype list {int32,int8,uint8,uint64,python list} on 14 key sets; universe of 10 probe keys, all 100 pair queries. "
                    "bfs: 20 configurations, all histories of depth <= 2 over ~20 state-changing operations, full observation of every distinct state; one-element and empty key vectors; assigned values outside the key dtype's range and fractional values; caller's arrays and a twin table re-read",
@@ -300,6 +300,32 @@ def _check_grid(case, acc):
         acc.trans()
         if ne is not False:
             acc.fail("equality-wrong", False, ne)
+    # the same dictionary in the other representation (one constant vs one value per key) is the same table
+    from npstructures import HashTable
+    karr = lambda ks: np.array(ks, dtype=kdt) if kdt else list(ks)
+    if vf.startswith("scalar"):
+        acc.feature("equality_across_representations")
+        c = init_values(keys, vf)
+        for name, g in (("constant == per-key", lambda: bool(f() == HashTable(karr(keys), [c] * len(keys), mod=mod))),
+                        ("per-key == constant", lambda: bool(HashTable(karr(keys), [c] * len(keys), mod=mod) == f()))):
+            o = attempt(g)
+            acc.trans()
+            if o is not True:
+                acc.fail("equality-wrong", (name, True), o)
+    # addition with a table over the same keys given in ANOTHER order: refused, or the sum of the two dictionaries
+    if len(keys) > 1:
+        acc.feature("addition_other_key_order")
+        rk = list(keys)[::-1]
+        other = {k: 1000 * (i + 1) for i, k in enumerate(rk)}
+
+        def add_rev():
+            s = f() + HashTable(karr(rk), [other[k] for k in rk], mod=mod)
+            return {int(k): pyval(v) for k, v in s.to_dict().items()}
+        o = attempt(add_rev)
+        acc.trans()
+        want = {int(k): pyval(d[k] + other[k]) for k in keys}
+        if not is_refused(o) and o != want:
+            acc.fail("addition-pairs-values-of-different-keys", want, o)
 
 
 # ---------------------------------------------------------------- Mode II
